@@ -32,6 +32,10 @@ enum Kind {
     LockedErrGroup,
     /// a stream built directly over an already locked handle: `AutoStream::auto(stdout().lock())`
     DirectLockedOut,
+    /// a stream built over a *borrowed* shared handle: `AutoStream::auto(&mut std::io::stdout())`
+    BorrowedOut,
+    /// the same for stderr
+    BorrowedErr,
     SetGlobal(u8),
     GetGlobal,
 }
@@ -91,7 +95,7 @@ fn generate(scen_seed: u64) -> Scenario {
             if register && rng.chance(1, 2) {
                 calls.push(Call { kind: if rng.chance(2, 3) { Kind::SetGlobal(*rng.pick(&[0u8, 1, 1, 3, 3])) } else { Kind::GetGlobal }, frags: vec![] });
             }
-            let kind = match rng.below(11) {
+            let kind = match rng.below(13) {
                 0 => Kind::Print,
                 1 => Kind::Println,
                 2 => Kind::Eprint,
@@ -102,6 +106,8 @@ fn generate(scen_seed: u64) -> Scenario {
                 7 => Kind::WriteAllErr,
                 8 => Kind::LockedErrGroup,
                 9 => Kind::DirectLockedOut,
+                10 => Kind::BorrowedOut,
+                11 => Kind::BorrowedErr,
                 _ => Kind::LockedOutGroup,
             };
             calls.push(Call { kind, frags: frags(&mut rng, t, c) });
@@ -170,6 +176,16 @@ fn run_calls(sc: &Scenario, t: usize, bad: &std::sync::Mutex<Vec<String>>) {
                 let mut l = anstream::stdout().lock();
                 write!(l, "{}", Frags(&f[..2])).unwrap();
                 write!(l, "{}", Frags(&f[2..])).unwrap();
+            }
+            Kind::BorrowedOut => {
+                let mut h = std::io::stdout();
+                let mut s = anstream::AutoStream::auto(&mut h);
+                write!(s, "{}{}{}", Frag(&f[0]), Frag(&f[1]), Frags(&f[2..])).unwrap();
+            }
+            Kind::BorrowedErr => {
+                let mut h = std::io::stderr();
+                let mut s = anstream::AutoStream::auto(&mut h);
+                write!(s, "{}{}{}", Frag(&f[0]), Frag(&f[1]), Frags(&f[2..])).unwrap();
             }
             Kind::DirectLockedOut => {
                 let mut s = anstream::AutoStream::auto(std::io::stdout().lock());
@@ -556,9 +572,9 @@ fn expected_all(sc: &Scenario, call: &Call) -> Vec<(bool, Vec<Vec<u8>>)> {
 fn expected(sc: &Scenario, call: &Call) -> Option<(bool, Vec<Vec<u8>>)> {
     let raw = call.frags.concat();
     let (err, raw) = match call.kind {
-        Kind::Print | Kind::WriteOut | Kind::WriteAllOut | Kind::LockedOutGroup | Kind::DirectLockedOut => (false, raw),
+        Kind::Print | Kind::WriteOut | Kind::WriteAllOut | Kind::LockedOutGroup | Kind::DirectLockedOut | Kind::BorrowedOut => (false, raw),
         Kind::Println => (false, raw + "\n"),
-        Kind::Eprint | Kind::WriteAllErr | Kind::LockedErrGroup => (true, raw),
+        Kind::Eprint | Kind::WriteAllErr | Kind::LockedErrGroup | Kind::BorrowedErr => (true, raw),
         Kind::Eprintln | Kind::WritelnErr => (true, raw + "\n"),
         _ => return None,
     };
